@@ -81,7 +81,7 @@ theorem corrupted_facts {t : Nat} {p : Bytes} {t' c' : Nat} {p' : Bytes} (ht : t
 /-! ### the host's reader on a damaged frame -/
 
 theorem devRead_append (h : Host) (a r : Bytes) (ha : a ≠ []) (hrx : h.rxB = a ++ r) :
-    devRead a.length h = (.ok a, { h with rxB := r }) := by
+    devRead a.length h = (.ok a, { h with reads := h.reads + 1, rxB := r }) := by
   unfold devRead
   have h1 : a.length ≠ 0 := by
     intro e; exact ha (List.length_eq_zero_iff.mp e)
@@ -95,7 +95,7 @@ theorem devRead_append (h : Host) (a r : Bytes) (ha : a ≠ []) (hrx : h.rxB = a
   simp
 
 theorem waitForData_nonzero (h : Host) (b : UInt8) (r : Bytes) (hb : b.toNat ≠ 0) (hrx : h.rxB = b :: r) :
-    waitForData h = (.ok b.toNat, { h with rxB := r }) := by
+    waitForData h = (.ok b.toNat, { h with reads := h.reads + 1, rxB := r }) := by
   unfold waitForData
   have : h.rxB.length + 1 = (h.rxB.length) + 1 := rfl
   rw [waitGo]
@@ -109,11 +109,11 @@ theorem waitForData_nonzero (h : Host) (b : UInt8) (r : Bytes) (hb : b.toNat ≠
 
 theorem readFrameHeader_none (h : Host) (t : UInt8) (r : Bytes) (hrx : h.rxB = UInt8.ofNat Spec.startByte :: t :: r) :
     readFrameHeader none h =
-      if t.toNat = Spec.fAbort then (.error .abort, { h with rxB := r })
-      else (.ok (Spec.startByte, t.toNat), { h with rxB := r }) := by
+      if t.toNat = Spec.fAbort then (.error .abort, { h with reads := h.reads + 1 + 1, rxB := r })
+      else (.ok (Spec.startByte, t.toNat), { h with reads := h.reads + 1 + 1, rxB := r }) := by
   unfold readFrameHeader
   have e0 := waitForData_nonzero h (UInt8.ofNat Spec.startByte) (t :: r) (by decide) hrx
-  have e1 := devRead_append { h with rxB := t :: r } [t] r (by simp) rfl
+  have e1 := devRead_append { h with reads := h.reads + 1, rxB := t :: r } [t] r (by simp) rfl
   simp only [List.length_cons, List.length_nil, Nat.zero_add] at e1
   have s0 : (UInt8.ofNat Spec.startByte).toNat = Spec.startByte := by decide
   simp only [bind_run, e0, s0]
@@ -136,16 +136,16 @@ theorem serialRead_rejects (h : Host) (t c : Nat) (p rest : Bytes) (ht : t < 256
   by_cases hab : t = Spec.fAbort
   · right; simp [hab]
   · simp only [hab, if_false]
-    have r1 := devRead_append { h with rxB := le 2 p.length ++ (le 2 c ++ (p ++ rest)) } (le 2 p.length) _
+    have r1 := devRead_append { h with reads := h.reads + 1 + 1, rxB := le 2 p.length ++ (le 2 c ++ (p ++ rest)) } (le 2 p.length) _
       (by simp [le]) rfl
-    have r2 := devRead_append { h with rxB := le 2 c ++ (p ++ rest) } (le 2 c) _ (by simp [le]) rfl
+    have r2 := devRead_append { h with reads := h.reads + 1 + 1 + 1, rxB := le 2 c ++ (p ++ rest) } (le 2 c) _ (by simp [le]) rfl
     simp only [le_length] at r1 r2
     have l1 : fromLe (le 2 p.length) = p.length := fromLe_le_of_lt 2 _ (by simpa using hp)
     have l2 : fromLe (le 2 c) = c := fromLe_le_of_lt 2 _ (by simpa using hc)
     simp only [r1, r2, l1, l2]
     by_cases hz : p.length = 0
     · right; simp [hz, sendAck]
-    · have r3 := devRead_append { h with rxB := p ++ rest } p rest
+    · have r3 := devRead_append { h with reads := h.reads + 1 + 1 + 1 + 1, rxB := p ++ rest } p rest
         (by intro e; exact hz (by simp [e])) rfl
       left
       simp only [hz, if_false, bind_run, r3, sendAck, devWrite_run]
@@ -208,29 +208,35 @@ theorem write_starved (h : Host) (w : Bytes) (hs : Starved h) : Starved (h.write
         · exact h2 r hr
         · exact hc r hr
 
-theorem devRead_starved (h : Host) (n : Nat) (hs : Starved h) : devRead n h = (.error .timeout, h) := by
-  unfold devRead
+/-- one more `device.read` call counted -/
+def bump (h : Host) : Host := { h with reads := h.reads + 1 }
+
+theorem bump_starved {h : Host} (hs : Starved h) : Starved (bump h) := ⟨hs.rxB, hs.rxR, hs.peer⟩
+theorem bump_same (h : Host) : Same h (bump h) := ⟨rfl, rfl, rfl, rfl, rfl⟩
+
+theorem devRead_starved (h : Host) (n : Nat) (hs : Starved h) : devRead n h = (.error .timeout, bump h) := by
+  unfold devRead bump
   simp [hs.rxB]
 
 theorem hidDevRead_starved (h : Host) (hs : Starved h) :
     ∃ h', hidDevRead h = (.error .timeout, h') ∧ Starved h' ∧ Same h h' := by
   unfold hidDevRead
   cases hr : h.rxR with
-  | nil => exact ⟨h, rfl, hs, Same.refl h⟩
+  | nil => exact ⟨bump h, by simp [bump, hr], bump_starved hs, bump_same h⟩
   | cons r rs =>
     have : r = [] := hs.rxR r (by simp [hr])
     subst this
-    refine ⟨{ h with rxR := rs }, by simp, ⟨hs.rxB, ?_, hs.peer⟩, Same.refl h⟩
+    refine ⟨{ h with reads := h.reads + 1, rxR := rs }, by simp [hr], ⟨hs.rxB, ?_, hs.peer⟩, ⟨rfl, rfl, rfl, rfl, rfl⟩⟩
     intro q hq
     exact hs.rxR q (by simp [hr, hq])
 
-theorem waitForData_starved (h : Host) (hs : Starved h) : waitForData h = (.error .timeout, h) := by
+theorem waitForData_starved (h : Host) (hs : Starved h) : waitForData h = (.error .timeout, bump h) := by
   unfold waitForData
   rw [hs.rxB]
   simp only [List.length_nil, Nat.zero_add, waitGo, bind_run, devRead_starved h 1 hs]
 
 theorem readFrameHeader_starved (h : Host) (e : Option Nat) (hs : Starved h) :
-    readFrameHeader e h = (.error .timeout, h) := by
+    readFrameHeader e h = (.error .timeout, bump h) := by
   unfold readFrameHeader
   simp only [bind_run, waitForData_starved h hs]
 
@@ -240,7 +246,7 @@ theorem readAny_starved (h : Host) (hs : Starved h) :
   simp only [bind_run, get_run]
   cases htr : h.cfg.tr with
   | serial =>
-    refine ⟨h, ?_, hs, Same.refl h⟩
+    refine ⟨bump h, ?_, bump_starved hs, bump_same h⟩
     simp only [serialRead, bind_run, readFrameHeader_starved h none hs]
   | hid =>
     obtain ⟨h', e, s1, s2⟩ := hidDevRead_starved h hs
@@ -277,7 +283,8 @@ theorem writeCommand_starved (h : Host) (p : CmdPkt) (hs : Starved h) :
       simp only [serialSendFrame]
       by_cases hl : 65536 ≤ data.length
       · exact ⟨h, hs, Same.refl h, Or.inr (Or.inl (by simp [hl]))⟩
-      · refine ⟨h.write (mkFrame Spec.fCmd data), (write_starved h _ hs).1, (write_starved h _ hs).2, Or.inl ?_⟩
+      · refine ⟨bump (h.write (mkFrame Spec.fCmd data)), bump_starved (write_starved h _ hs).1,
+          Same.trans (write_starved h _ hs).2 (bump_same _), Or.inl ?_⟩
         simp only [hl, if_false, bind_run, devWrite_run,
           readFrameHeader_starved _ (some Spec.fAck) (write_starved h _ hs).1]
     | hid =>
@@ -485,7 +492,7 @@ theorem readMemory_starved (h : Host) (a n m : Nat) (fast : Bool) (hs : Starved 
     · simp only [he, noResponse, pure_run]
       exact not_succeeded_none _
 
-theorem ping_starved (h : Host) (hs : Starved h) : ping h = (.error .timeout, h.write pingFrame) := by
+theorem ping_starved (h : Host) (hs : Starved h) : ping h = (.error .timeout, bump (h.write pingFrame)) := by
   unfold ping
   have hw := (write_starved h pingFrame hs).1
   have : Spec.maxPingDummy = 49 + 1 := rfl
@@ -498,15 +505,137 @@ theorem openSerial_starved (k : Nat) (h : Host) (hs : Starved h) : (openSerial k
     unfold openSerial
     have hs1 : Starved { h with opened := true } := ⟨hs.rxB, hs.rxR, hs.peer⟩
     have hp := ping_starved { h with opened := true } hs1
-    have hw := (write_starved _ pingFrame hs1).1
+    have hw := bump_starved (write_starved _ pingFrame hs1).1
     simp only [bind_run, modify_run, catch_run, hp, true_or, if_true]
     exact ih _ ⟨hw.rxB, hw.rxR, hw.peer⟩
 
-/-- operations that talk to the device at all -/
+/-- operations whose success depends on an answer of the device: not `open` over HID, not a zero-length chunked read,
+    not `load_image` over HID (neither ACK nor response is expected there) or of nothing, and not `reset`
+    (a missing response to reset is ignored by design) -/
 def talks (cfg : Cfg) : Op → Prop
   | .open_ => cfg.tr = .serial
   | .readMemory _ n _ fast => ¬ (cfg.usb = true ∧ fast = false ∧ n = 0)
+  | .loadImage d => cfg.tr = .serial ∧ d ≠ []
+  | .reset _ => False
   | _ => True
+
+theorem dataOutCmd_starved (h : Host) (tag : Nat) (ps : List Nat) (data : Bytes) (hs : Starved h) :
+    ¬ succeeded (dataOutCmd tag ps data h).1 (dataOutCmd tag ps data h).2 := by
+  unfold dataOutCmd
+  simp only [bind_run]
+  have hsd := splitData_starved h data hs
+  rcases hg : splitData data h with ⟨r, h1⟩
+  rw [hg] at hsd
+  cases r with
+  | error e => exact not_succeeded_error _ _
+  | ok chunks =>
+    simp only
+    obtain ⟨h', _, _, hr⟩ := processCmd_starved h1 ⟨tag, Spec.flagHasDataPhase, ps⟩ hsd.1
+    rcases hr with ⟨e, he⟩ | ⟨he, _⟩
+    · simp only [he]; exact not_succeeded_error _ _
+    · simp only [he, noResponse, pure_run]
+      exact not_succeeded_false _
+
+theorem dataInCmd_starved (h : Host) (tag : Nat) (ps : List Nat) (k : RKind) (hs : Starved h) :
+    ¬ succeeded (dataInCmd tag ps k h).1 (dataInCmd tag ps k h).2 := by
+  unfold dataInCmd
+  simp only [bind_run]
+  obtain ⟨h', _, _, hr⟩ := processCmd_starved h ⟨tag, 0, ps⟩ hs
+  rcases hr with ⟨e, he⟩ | ⟨he, _⟩
+  · simp only [he]; exact not_succeeded_error _ _
+  · simp only [he, noResponse, pure_run]
+    exact not_succeeded_none _
+
+theorem efuseReadOnce_starved (h : Host) (i : Nat) (hs : Starved h) :
+    ∃ h', Starved h' ∧ ((∃ e, efuseReadOnce i h = (.error e, h')) ∨ efuseReadOnce i h = (.ok none, h')) := by
+  unfold efuseReadOnce
+  obtain ⟨h', s', _, hr⟩ := processCmd_starved h ⟨Spec.cFlashReadOnce, 0, [i, 4]⟩ hs
+  rcases hr with ⟨e, he⟩ | ⟨he, _⟩
+  · exact ⟨h', s', Or.inl ⟨e, by simp only [bind_run, he]⟩⟩
+  · exact ⟨h', s', Or.inr (by simp [bind_run, he, noResponse])⟩
+
+theorem efuseProgramOnce_starved (h : Host) (i v : Nat) (c : Bool) (hs : Starved h) :
+    ¬ succeeded (efuseProgramOnce i v c h).1 (efuseProgramOnce i v c h).2 := by
+  unfold efuseProgramOnce
+  simp only [bind_run]
+  obtain ⟨h', _, _, hr⟩ := processCmd_starved h ⟨Spec.cFlashProgramOnce, 0, [i, 4, v]⟩ hs
+  rcases hr with ⟨e, he⟩ | ⟨he, _⟩
+  · simp only [he]; exact not_succeeded_error _ _
+  · simp only [he, noResponse, pure_run]
+    have hne : Spec.stNoResponse ≠ Spec.stSuccess := by decide
+    simp only [hne, ne_eq, not_false_eq_true, if_true, pure_run]
+    exact not_succeeded_false _
+
+theorem flashReadOnce_starved (h : Host) (i c : Nat) (hs : Starved h) :
+    ¬ succeeded (flashReadOnce i c h).1 (flashReadOnce i c h).2 := by
+  unfold flashReadOnce
+  by_cases hc : c ≠ 4 ∧ c ≠ 8
+  · rw [if_pos hc]; exact not_succeeded_error _ _
+  · rw [if_neg hc]
+    simp only [bind_run]
+    obtain ⟨h', _, _, hr⟩ := processCmd_starved h ⟨Spec.cFlashReadOnce, 0, [i, c]⟩ hs
+    rcases hr with ⟨e, he⟩ | ⟨he, _⟩
+    · simp only [he]; exact not_succeeded_error _ _
+    · simp only [he, noResponse, pure_run]
+      exact not_succeeded_none _
+
+theorem flashProgramOnce_starved (h : Host) (i : Nat) (d : Bytes) (hs : Starved h) :
+    ¬ succeeded (flashProgramOnce i d h).1 (flashProgramOnce i d h).2 := by
+  unfold flashProgramOnce
+  by_cases hc : d.length ≠ 4 ∧ d.length ≠ 8
+  · rw [if_pos hc]; exact not_succeeded_error _ _
+  · rw [if_neg hc]
+    simp only [bind_run]
+    obtain ⟨h', _, _, hr⟩ := processCmd_starved h ⟨Spec.cFlashProgramOnce, 0, [i, d.length] ++ wordsOf d⟩ hs
+    rcases hr with ⟨e, he⟩ | ⟨he, _⟩
+    · simp only [he]; exact not_succeeded_error _ _
+    · simp only [he, noResponse, pure_run]
+      exact not_succeeded_false _
+
+theorem writeData_starved_serial (h : Host) (a : Bool) (c : Bytes) (hs : Starved h) (htr : h.cfg.tr = .serial) :
+    ∃ h', Starved h' ∧ Same h h' ∧ (writeData a c h = (.error .timeout, h') ∨ writeData a c h = (.error .other, h')) := by
+  unfold writeData
+  simp only [bind_run, get_run, htr, serialSendFrame]
+  by_cases hl : 65536 ≤ c.length
+  · exact ⟨h, hs, Same.refl h, Or.inr (by simp [hl])⟩
+  · refine ⟨bump (h.write (mkFrame Spec.fData c)), bump_starved (write_starved h _ hs).1,
+      Same.trans (write_starved h _ hs).2 (bump_same _), Or.inl ?_⟩
+    simp only [hl, if_false, bind_run, devWrite_run,
+      readFrameHeader_starved _ (some Spec.fAck) (write_starved h _ hs).1]
+
+theorem loadImage_starved (h : Host) (data : Bytes) (hs : Starved h) (htr : h.cfg.tr = .serial) (hd : data ≠ []) :
+    ¬ succeeded (loadImage data h).1 (loadImage data h).2 := by
+  unfold loadImage splitData
+  simp only [bind_run]
+  have hg' := getMaxPacketSize_starved h hs
+  rcases hg : getMaxPacketSize h with ⟨r, h1⟩
+  rw [hg] at hg'
+  cases r with
+  | error e => exact not_succeeded_error _ _
+  | ok n =>
+    simp only at hg' ⊢
+    by_cases hn : n = 0
+    · simp only [hn, if_true, fail_run]; exact not_succeeded_error _ _
+    · simp only [hn, if_false, pure_run]
+      have hsplit := split_cons n (by omega) data hd
+      simp only [setStatus_run, sendDataNoResp, bind_run, requireOpen, get_run]
+      by_cases ho : h1.opened = true
+      · rw [if_pos (show ({ h1 with status := Spec.stSuccess } : Host).opened = true from ho)]
+        simp only [pure_run, hsplit, sendChunks]
+        have hs1 : Starved { h1 with status := Spec.stSuccess } := ⟨hg'.1.rxB, hg'.1.rxR, hg'.1.peer⟩
+        have htr1 : ({ h1 with status := Spec.stSuccess } : Host).cfg.tr = .serial := by
+          show h1.cfg.tr = .serial
+          rw [hg'.2]; exact htr
+        obtain ⟨h2, _, _, hw⟩ := writeData_starved_serial { h1 with status := Spec.stSuccess } h1.eda (data.take n) hs1 htr1
+        rcases hw with hw | hw
+        · simp only [hw, if_true, bind_run, setStatus_run, fail_run]
+          exact not_succeeded_error _ _
+        · have c1 : ¬ (HErr.other = HErr.timeout) := by decide
+          have c2 : HErr.other.isSpsdk = false := rfl
+          simp only [hw, c1, c2, if_false, Bool.false_eq_true, fail_run]
+          exact not_succeeded_error _ _
+      · rw [if_neg (show ¬ ({ h1 with status := Spec.stSuccess } : Host).opened = true from ho)]
+        exact not_succeeded_error _ _
 
 /-- **Missing response / stream cut off**: on a link that stays silent no operation reports success. -/
 theorem silent_link_never_succeeds (h : Host) (op : Op) (hs : Starved h) (ht : talks h.cfg op) :
@@ -534,6 +663,29 @@ theorem silent_link_never_succeeds (h : Host) (op : Op) (hs : Starved h) (ht : t
   | readMemory a n m f => exact readMemory_starved h a n m f hs ht
   | writeMemory a d m => exact writeMemory_starved h a d m hs
   | receiveSbFile d c => exact receiveSbFile_starved h d c hs
+  | loadImage d => exact loadImage_starved h d hs ht.1 ht.2
+  | flashReadOnce i c => exact flashReadOnce_starved h i c hs
+  | flashProgramOnce i d => exact flashProgramOnce_starved h i d hs
+  | efuseReadOnce i =>
+    simp only [runOp, bind_run]
+    obtain ⟨h', _, hr⟩ := efuseReadOnce_starved h i hs
+    rcases hr with ⟨e, he⟩ | he
+    · simp only [he]; exact not_succeeded_error _ _
+    · simp only [he, pure_run]; exact not_succeeded_none _
+  | efuseProgramOnce i v c => exact efuseProgramOnce_starved h i v c hs
+  | flashReadResource a n o =>
+    simp only [runOp]
+    by_cases hn : n % 4 ≠ 0
+    · rw [if_pos hn]; exact not_succeeded_error _ _
+    · rw [if_neg hn]; exact dataInCmd_starved h _ _ _ hs
+  | kpEnroll => exact simpleCmd_starved h _ _ hs
+  | kpSetIntrinsicKey t z => exact simpleCmd_starved h _ _ hs
+  | kpWriteNonvolatile m => exact simpleCmd_starved h _ _ hs
+  | kpReadNonvolatile m => exact simpleCmd_starved h _ _ hs
+  | kpSetUserKey t d => exact dataOutCmd_starved h _ _ _ hs
+  | kpWriteKeyStore d => exact dataOutCmd_starved h _ _ _ hs
+  | kpReadKeyStore => exact dataInCmd_starved h _ _ _ hs
+  | reset r => exact absurd ht id
 
 /-! ### status codes are mirrored; success needs a SUCCESS response -/
 
@@ -714,12 +866,12 @@ theorem sendData_true (h h' : Host) (cs : List Bytes) (hne : ∀ c ∈ cs, c ≠
 theorem readFrameHeader_ack (h : Host) (t : UInt8) (r : Bytes)
     (hrx : h.rxB = UInt8.ofNat Spec.startByte :: t :: r) :
     readFrameHeader (some Spec.fAck) h =
-      if t.toNat = Spec.fAbort then (.error .abort, { h with rxB := r })
-      else if t.toNat = Spec.fAck then (.ok (Spec.startByte, Spec.fAck), { h with rxB := r })
-      else (.error .conn, { h with rxB := r }) := by
+      if t.toNat = Spec.fAbort then (.error .abort, { h with reads := h.reads + 1 + 1, rxB := r })
+      else if t.toNat = Spec.fAck then (.ok (Spec.startByte, Spec.fAck), { h with reads := h.reads + 1 + 1, rxB := r })
+      else (.error .conn, { h with reads := h.reads + 1 + 1, rxB := r }) := by
   unfold readFrameHeader
   have e0 := waitForData_nonzero h (UInt8.ofNat Spec.startByte) (t :: r) (by decide) hrx
-  have e1 := devRead_append { h with rxB := t :: r } [t] r (by simp) rfl
+  have e1 := devRead_append { h with reads := h.reads + 1, rxB := t :: r } [t] r (by simp) rfl
   simp only [List.length_cons, List.length_nil, Nat.zero_add] at e1
   have s0 : (UInt8.ofNat Spec.startByte).toNat = Spec.startByte := by decide
   simp only [bind_run, e0, s0]
@@ -797,7 +949,8 @@ theorem writeData_starved (h : Host) (a : Bool) (c : Bytes) (hs : Starved h) :
     simp only [serialSendFrame]
     by_cases hl : 65536 ≤ c.length
     · exact ⟨h, hs, Same.refl h, Or.inr (Or.inl (by simp [hl]))⟩
-    · refine ⟨h.write (mkFrame Spec.fData c), (write_starved h _ hs).1, (write_starved h _ hs).2, Or.inl ?_⟩
+    · refine ⟨bump (h.write (mkFrame Spec.fData c)), bump_starved (write_starved h _ hs).1,
+        Same.trans (write_starved h _ hs).2 (bump_same _), Or.inl ?_⟩
       simp only [hl, if_false, bind_run, devWrite_run,
         readFrameHeader_starved _ (some Spec.fAck) (write_starved h _ hs).1]
   | hid =>
